@@ -536,6 +536,11 @@ def decode_values(dt, hexs):
 def numpy_cast_hex(src, dst, bits):
     """Value-preserving cast of bit patterns from src to a float dst without numpy: through Python floats / ints (exact for every safe cast)."""
     w = width(src)
+    if src in INTS and dst in INTS:
+        # only reached when the Coq model could not be evaluated (a broken tie): the same value in the wider integer dtype
+        s, _ = INTS[src]
+        wd = width(dst)
+        return b"".join(((b - (1 << (8 * w)) if s and b >> (8 * w - 1) else b) % (1 << (8 * wd))).to_bytes(wd, "little") for b in bits).hex()
     if src in INTS:
         s, _ = INTS[src]
         vals = [float(b - (1 << (8 * w)) if s and b >> (8 * w - 1) else b) for b in bits]
